@@ -1,13 +1,8 @@
 (* C12 (c): the spec-list-driven frame round trip  _readData (_writeData values) = values, nothing left over *)
 From Coq Require Import ZArith List Bool Lia.
 Import ListNotations.
-Require Import Base.Py Base.ZList Model.Id3Spec Model.Id3Frame Proofs.C12_ints Proofs.C12_codec Proofs.C12_specs.
+Require Import Base.Py Base.ZList Model.Id3Spec Model.Id3Frame Proofs.C12_ints Proofs.C12_codec Proofs.C12_specs Proofs.C12_specs2.
 Open Scope Z_scope.
-
-(* spec kinds whose round trip is proved (the rest is covered by differential testing only) *)
-Definition kind_covered (k : spec_kind) : bool :=
-  match k with KPrim p => last_covered p | KMulti ks => forallb is_enc_text ks end.
-Definition kinds_covered (fs : list field) : bool := forallb (fun f => kind_covered (f_kind f)) fs.
 
 Section Frame.
 Variable sub : list Z -> result (value * list Z).
@@ -42,11 +37,11 @@ Lemma read_fields_cons c nmand f fs data : read_fields sub ver c nmand (f :: fs)
 Proof. reflexivity. Qed.
 
 Lemma fields_rt : forall fs seen c vs nmand,
-  fields_ok seen fs = true -> kinds_covered fs = true ->
+  fields_ok seen fs = true ->
   fields_valid subw subvalid ver c fs vs = true -> (nmand <= length vs)%nat ->
   exists b, write_fields subw c fs vs = Ok b /\ read_fields sub ver c nmand fs b = Ok (vs, []).
 Proof.
-  induction fs as [|f fs IH]; intros seen c vs nmand Hok Hcov Hval Hn.
+  induction fs as [|f fs IH]; intros seen c vs nmand Hok Hval Hn.
   - apply fields_valid_nil in Hval. subst vs. exists []. split; reflexivity.
   - destruct vs as [|v vs].
     + cbn [fields_valid] in Hval. apply negb_true_iff in Hval. cbn [length] in Hn.
@@ -55,16 +50,15 @@ Proof.
     + cbn [fields_valid] in Hval. apply andb_true_iff in Hval as [Hval Hz]. apply andb_true_iff in Hval as [Hv Hrest].
       cbn [fields_ok] in Hok. apply andb_true_iff in Hok as [Hok Hok'].
       apply andb_true_iff in Hok as [Hok _]. apply andb_true_iff in Hok as [Hok _]. apply andb_true_iff in Hok as [_ Hk].
-      cbn [kinds_covered forallb] in Hcov. apply andb_true_iff in Hcov as [Hc Hcov'].
       cbn [length] in Hn.
-      destruct (IH (f :: seen) (ctx_set c (f_name f) v) vs (Nat.pred nmand) Hok' Hcov' Hrest ltac:(lia)) as (b' & Hw' & Hr').
+      destruct (IH (f :: seen) (ctx_set c (f_name f) v) vs (Nat.pred nmand) Hok' Hrest ltac:(lia)) as (b' & Hw' & Hr').
       destruct (f_kind f) as [p|ks] eqn:Ek.
       * (* a plain spec *)
         destruct fs as [|f2 fs2].
         -- (* final field *)
            apply fields_valid_nil in Hrest. subst vs. cbn [write_fields] in Hw'. inversion Hw'; subst b'.
-           cbn [kind_covered] in Hc. cbn [spec_valid] in Hv.
-           destruct (prim_last sub subw subvalid ver sub_roundtrip c p v Hc Hv) as (b & Hw & Hne & Hr).
+           cbn [is_nil] in Hk. cbn [spec_valid] in Hv.
+           destruct (prim_last sub subw subvalid ver sub_roundtrip c p v Hk Hv) as (b & Hw & Hne & Hr).
            exists (b ++ []). rewrite write_fields_cons. rewrite Ek. cbn [spec_write]. rewrite Hw. cbn [rmap].
            split; [reflexivity|]. rewrite app_nil_r. rewrite read_fields_cons. rewrite Ek, handle_nodata_prim. cbn [spec_read].
            assert (G : negb (is_nil b) || nodata p = true).
@@ -105,13 +99,13 @@ Proof.
 Qed.
 
 Theorem frame_roundtrip fr vs :
-  spec_list_ok fr = true -> kinds_covered (all_fields fr) = true ->
+  spec_list_ok fr = true ->
   frame_valid subw subvalid ver fr vs = true ->
   exists b, frame_write subw ver fr vs = Ok b /\ frame_read sub ver fr b = Ok (vs, []).
 Proof.
-  intros Hok Hcov Hval. unfold frame_valid in Hval. apply andb_true_iff in Hval as [Hlen Hval].
+  intros Hok Hval. unfold frame_valid in Hval. apply andb_true_iff in Hval as [Hlen Hval].
   apply Nat.leb_le in Hlen.
-  destruct (fields_rt (all_fields fr) [] ctx0 vs (length (fr_spec fr)) Hok Hcov Hval Hlen) as (b & Hw & Hr).
+  destruct (fields_rt (all_fields fr) [] ctx0 vs (length (fr_spec fr)) Hok Hval Hlen) as (b & Hw & Hr).
   exists b. unfold frame_write, frame_read.
   replace (length vs <? length (fr_spec fr))%nat with false by (symmetry; apply Nat.ltb_ge; exact Hlen).
   split; [|exact Hr].
